@@ -23,10 +23,17 @@ fn alias(native: bool, split: u8, opk: u8, victim_side: Side) -> impl Fn() {
 /// `under_water`: the victim's position is deep under water (liquidatable) when the aliased call
 /// arrives
 fn alias_u(native: bool, split: u8, opk: u8, victim_side: Side, under_water: bool) -> impl Fn() {
+    alias_c(native, split, opk, victim_side, under_water, 0)
+}
+
+/// `partial`: the engine's partial-liquidation / partial-close ratio in quarters (0 = the default
+/// 0, 4 = exactly 100%)
+fn alias_c(native: bool, split: u8, opk: u8, victim_side: Side, under_water: bool, partial: u128) -> impl Fn() {
     move || {
         let mut cfg = Cfg::base(native, if native { 6 } else { 9 });
         let d = cfg.d();
         cfg.init_ratio = Uint128::new(d / 10);
+        cfg.partial_ratio = Uint128::new(d * partial / 4);
         let mut r = Run::new(cfg, Mon::none());
         symrt::set_full(false);
         let lev = Uint128::new(2 * d);
@@ -201,6 +208,16 @@ pub fn scenarios(_seed: u64) -> Vec<Scenario> {
                 v.push(sc("C10", tier, &format!("c10.alias.{}.split{}.{}.victim-under-water", on, split, cn), d, 100, 60, alias_u(native, split, opk as u8, Side::Buy, true)));
             }
         }
+    }
+    for (native, cn) in [(false, "cw20"), (true, "native")] {
+        for (opk, on) in ops.iter().enumerate() {
+            for (pq, pn) in [(4u128, "ratio100"), (1, "ratio25")] {
+                let tier = if pq == 4 && !native { Tier::Quick } else { Tier::Thorough };
+                v.push(sc("C10", tier, &format!("c10.alias.{}.split0.{}.{}", on, cn, pn), d, 100, 60, alias_c(native, 0, opk as u8, Side::Buy, false, pq)));
+            }
+        }
+        v.push(sc("C10", Tier::Quick, &format!("c10.alias.close.split0.{}.ratio100.victim-under-water", cn), d, 100, 60, alias_c(native, 0, 2, Side::Buy, true, 4)));
+        v.push(sc("C10", Tier::Quick, &format!("c10.alias.liquidate.split0.{}.ratio100.victim-under-water", cn), d, 100, 60, alias_c(native, 0, 5, Side::Buy, true, 4)));
     }
     for (native, cn) in [(false, "cw20"), (true, "native")] {
         v.push(sc("C10", Tier::Quick, &format!("c10.queries.{}", cn), "every query of all five contracts on a staged deployment (positions, a funding settlement, fees): raw storage and balances bytewise identical afterwards", 50, 60, queries_change_nothing(native)));
